@@ -354,6 +354,9 @@ def finish(ctx, level, violations, known_hits, coverage, assumptions):
     """Writes evidence, prints verdict lines, returns exit code."""
     os.makedirs(os.path.join(VERIF, "evidence"), exist_ok=True)
     os.makedirs(os.path.join(VERIF, "replays"), exist_ok=True)
+    for f in os.listdir(os.path.join(VERIF, "replays")):
+        if f.startswith(ctx.prop + "-") and ".min" not in f:
+            os.remove(os.path.join(VERIF, "replays", f))
     for f, what in sorted(known_hits.items()):
         print("KNOWN-FINDING: property=%s %s" % (ctx.prop, what))
     n = 0
